@@ -96,6 +96,13 @@ func findCommodityReferences(symbol string, resolved *include.ResolvedJournal, c
 							URI:   pathToURI(filePath),
 							Range: *astRangeToProtocol(cd.Commodity.Range),
 						})
+						// the symbol is written again in a format subdirective
+						if cd.FormatSymbolRange != nil {
+							locations = append(locations, protocol.Location{
+								URI:   pathToURI(filePath),
+								Range: *astRangeToProtocol(*cd.FormatSymbolRange),
+							})
+						}
 					}
 				}
 			}
